@@ -44,10 +44,11 @@ wait_pub() {
 while read -r c v; do
   rm -rf /run/clockbound
   if [ "$c" -ge 2 ] && [ "$c" -le 4 ] && [ "$PHC" != "1" ]; then echo "RESULT $c $v SKIPPED"; continue; fi
-  if [ "$c" -ge 7 ] && [ "$ETC" != "1" ]; then echo "RESULT $c $v SKIPPED"; continue; fi
+  if [ "$c" -ge 7 ] && [ "$c" -le 8 ] && [ "$ETC" != "1" ]; then echo "RESULT $c $v SKIPPED"; continue; fi
+  if [ "$c" -ge 9 ] && [ -z "$CBV_SHIM" ]; then echo "RESULT $c $v SKIPPED"; continue; fi
   if [ "$ETC" = "1" ]; then
     rm -f /etc/chrony.conf /etc/chrony/chrony.conf
-    if [ "$c" -ge 7 ]; then
+    if [ "$c" -ge 7 ] && [ "$c" -le 8 ]; then
       # a host set up as the README says: chronyd's own configuration carries a maximum clock error
       printf 'pool pool.ntp.org iburst\nmaxclockerror 50\nmakestep 1.0 3\ndriftfile /var/lib/chrony/drift\n' > /etc/chrony.conf
       cp /etc/chrony.conf /etc/chrony/chrony.conf
@@ -69,6 +70,8 @@ while read -r c v; do
     1:*) "$BIN" -m "$v" >/dev/null 2>&1 & ;;
     2:*) "$BIN" --max-drift-rate "$v" -r PHC0 -i cbvphc0 >/dev/null 2>&1 & ;;
     3:*) "$BIN" -i cbvphc0 -r PHC0 "--max-drift-rate=$v" >/dev/null 2>&1 & ;;
+    10:default) LD_PRELOAD="$CBV_SHIM" CBV_SHIM_FREQ=3997696 "$BIN" >/dev/null 2>&1 & ;;
+    9:*) LD_PRELOAD="$CBV_SHIM" CBV_SHIM_FREQ=-819200 "$BIN" "--max-drift-rate=$v" >/dev/null 2>&1 & ;;
     *) echo "RESULT $c $v BADCONTEXT"; continue ;;
   esac
   pid=$!
@@ -79,7 +82,7 @@ done
 "#;
 
 /// How the option reaches the daemon (the published value must not depend on it).
-const CONTEXTS: [&str; 9] = [
+const CONTEXTS: [&str; 11] = [
     "--max-drift-rate=V (flag omitted for 'default')",
     "-m V",
     "--max-drift-rate V -r PHC0 -i <interface with a PTP hardware clock>",
@@ -89,6 +92,8 @@ const CONTEXTS: [&str; 9] = [
     "flag omitted, restarting on the segment left behind by an instance that ran with --max-drift-rate=50",
     "--max-drift-rate=V on a host whose /etc/chrony.conf (and /etc/chrony/chrony.conf) says 'maxclockerror 50'",
     "flag omitted, on a host whose chrony.conf says 'maxclockerror 50'",
+    "--max-drift-rate=V on a synchronised host whose kernel reports a frequency correction of -12.5 ppm (adjtimex answered by harness/cabi/envshim.c)",
+    "flag omitted, on a synchronised host whose kernel reports a frequency correction of +61 ppm",
 ];
 
 fn alphabet(tier: Tier) -> Vec<(u8, String)> {
@@ -143,13 +148,13 @@ fn alphabet(tier: Tier) -> Vec<(u8, String)> {
     v.retain(|x| *x <= u32::MAX as u64);
     v.sort();
     v.dedup();
-    let mut out: Vec<(u8, String)> = vec![(0, "default".into()), (4, "default".into()), (6, "default".into()), (8, "default".into())];
+    let mut out: Vec<(u8, String)> = vec![(0, "default".into()), (4, "default".into()), (6, "default".into()), (8, "default".into()), (10, "default".into())];
     out.extend(v.iter().map(|x| (0u8, x.to_string())));
     // the other spellings / companions of the option: the structured values (not the stride sweep)
     boundary.retain(|x| *x <= u32::MAX as u64);
     boundary.sort();
     boundary.dedup();
-    for c in [1u8, 2, 3, 5, 7] {
+    for c in [1u8, 2, 3, 5, 7, 9] {
         out.extend(boundary.iter().map(|x| (c, x.to_string())));
     }
     // clap-level rejects
@@ -159,7 +164,7 @@ fn alphabet(tier: Tier) -> Vec<(u8, String)> {
     out
 }
 
-fn run_worker(bin: &str, values: &[(u8, String)], ns: bool) -> Result<Vec<(u8, String, String)>, String> {
+fn run_worker(bin: &str, shim: &str, values: &[(u8, String)], ns: bool) -> Result<Vec<(u8, String, String)>, String> {
     let mut cmd = if ns {
         let mut c = Command::new("unshare");
         c.args(["-m", "bash", "-c", SCRIPT, "cbv-c19", bin]);
@@ -169,7 +174,7 @@ fn run_worker(bin: &str, values: &[(u8, String)], ns: bool) -> Result<Vec<(u8, S
         c.args(["-c", SCRIPT, "cbv-c19", bin]).env("CBV_NS", "0");
         c
     };
-    let mut child = cmd.stdin(Stdio::piped()).stdout(Stdio::piped()).stderr(Stdio::null()).spawn().map_err(|e| format!("cannot start worker: {e}"))?;
+    let mut child = cmd.env("CBV_SHIM", shim).stdin(Stdio::piped()).stdout(Stdio::piped()).stderr(Stdio::null()).spawn().map_err(|e| format!("cannot start worker: {e}"))?;
     {
         let mut sin = child.stdin.take().unwrap();
         for (c, v) in values {
@@ -207,11 +212,12 @@ pub fn run(ctx: &Ctx) -> i32 {
         }
         None => alphabet(ctx.tier),
     };
+    let shim = e2e::shim(ctx).unwrap_or_else(|e| machinery_failure(&format!("C19: {e}")));
     let ns = Command::new("unshare").args(["-m", "true"]).status().map(|s| s.success()).unwrap_or(false);
     let nworkers = if ns { crate::common::par::threads().min(values.len()) } else { 1 };
     let chunks: Vec<Vec<(u8, String)>> = (0..nworkers).map(|w| values.iter().skip(w).step_by(nworkers).cloned().collect()).collect();
     let results: Vec<Result<Vec<(u8, String, String)>, String>> = std::thread::scope(|s| {
-        let hs: Vec<_> = chunks.iter().map(|c| s.spawn(|| run_worker(&bin, c, ns))).collect();
+        let hs: Vec<_> = chunks.iter().map(|c| s.spawn(|| run_worker(&bin, &shim, c, ns))).collect();
         hs.into_iter().map(|h| h.join().unwrap_or_else(|_| Err("worker thread panicked".into()))).collect()
     });
     let mut all: Vec<(u8, String, String)> = vec![];
